@@ -137,6 +137,7 @@ def run(ctx, rep):
     # "a bounded number of bytes past the value": input is pulled one byte at a time, never a whole file / block
     from rules import pipeline_rules as _P
     _P.limiter_machine(rep, lib, rid="C14-LIMITER-MACHINE")
+    _P.limiter_wiring(rep, lib, rid="C14-LIMITER-WIRING")
     from rules import c16
     c16.raw_io(rep, lib)
     c16.eof_distinct(rep, lib)
